@@ -1,6 +1,5 @@
 import Verif.Gen.Schemas
 import Verif.Gen.DumpSites
-import Verif.Gen.Builders
 import Verif.Lemmas.SchemaGen
 
 /-! # C10 — typed protocol models are lossless views of the wire and use wire names
@@ -11,7 +10,7 @@ calls are a table regenerated from the AST of every file under `src/` (`Gen/Dump
 -/
 set_option linter.unusedSimpArgs false
 namespace Verif.Props.C10
-open Verif.Model.Schema Verif.Gen.Schemas Verif.Gen.DumpSites Verif.Gen.Builders Verif.Lemmas.Schema Verif.Lemmas.SchemaGen
+open Verif.Model.Schema Verif.Gen.Schemas Verif.Gen.DumpSites Verif.Lemmas.Schema Verif.Lemmas.SchemaGen
 
 /-- Both generated tables lie in the translators' subsets. -/
 theorem c10_translated : Verif.Gen.Schemas.translatable = true ∧ Verif.Gen.DumpSites.translatable = true := by
@@ -58,92 +57,5 @@ theorem c10_dump_sites_use_wire_names :
 
 /-- non-vacuity: the table has wire-feeding sites, some with resolved receiver classes -/
 example : ∃ s ∈ sites, s.feedsWire = true ∧ s.resolved = true := by decide +kernel
-
-/-! ## Library-side constructors and parsers (`create_*` / `parse_*` helpers)
-
-`Gen/Builders.lean` is REGENERATED from the AST of the helpers of `types/content.py`, `types/tools.py`,
-`types/elicitation.py`, `types/errors.py`, `messages/json_rpc_message.py`, the completions and roots
-modules: every helper whose body is straight-line construction becomes a `Builder` expression, every
-`parse_*` that dispatches on a member becomes a `ParseTable`. -/
-
-/-- Every generated helper fits the generated schemas: each constructor call names a discovered
-class, passes declared attribute names only (each once), supplies every required field, and every
-constant it passes fits the declared type of its field (`type="image"` for `Literal["image"]`, …). -/
-theorem c10_builders_fit_schemas : ∀ b ∈ builders, builderOk classes b = true := by decide +kernel
-
-/-- No attribute name of a discovered class is the wire name of another field of the class (so alias
-processing cannot confuse a keyword argument with a wire member). -/
-theorem c10_names_apart : ∀ c ∈ classes, namesApart c = true := by decide +kernel
-
-/-- **Construction by attribute name = construction from the wire object**, for every discovered class
-and EVERY object: renaming wire-named members to the Python attribute names (what the library's own
-constructors pass as keyword arguments) does not change the typed value. -/
-theorem c10_construct_by_attribute_names (inv : String → Obj → Bool) (cls : String) (c : Class)
-    (hfind : (cfgOf inv).find cls = some c) (kvs : Obj)
-    (hinv : inv c.id (kvs.map (fun p => (c.attrOf p.1, p.2))) = inv c.id kvs) :
-    validate (cfgOf inv) (.ref cls) (.obj (kvs.map (fun p => (c.attrOf p.1, p.2))))
-      = validate (cfgOf inv) (.ref cls) (.obj kvs) :=
-  construct_by_attribute_names (classWF_sound (schemas_wellformed c (find_mem hfind)))
-    (c10_names_apart c (find_mem hfind)) hfind kvs hinv
-
-/-- **No `None` members**: with `exclude_none=True` no member of a dumped model object is `null` —
-for every typed value, with or without aliases. -/
-theorem c10_no_none_members (inv : String → Obj → Bool) (byAlias : Bool) (cls : String) (fs : List (String × TVal)) :
-    ∀ m ∈ dumpFields (cfgOf inv) byAlias true cls fs, m.2.isNull = false :=
-  dumpFields_no_null byAlias cls fs
-
-/-- **What a helper builds dumps to exactly the wire form.**  For ANY builder expression (in
-particular every generated `create_*` helper) and any arguments: if the helper hands keyword arguments
-`a` (declared attribute names) to the constructor of `cls` and the same members under their wire names
-are a spec-valid object `w`, the helper succeeds and
-`model_dump(by_alias=True, exclude_none=True)` of its result is `expected w` — wire names (`schema`,
-`_meta`), declared defaults, nothing else. -/
-theorem c10_helpers_emit_wire_form (inv : String → Obj → Bool) (b : Builder) (cls : String) (c : Class)
-    (args a : Obj) (hret : b.ret.retClass = some cls) (hfind : (cfgOf inv).find cls = some c)
-    (heval : b.eval args = some (.obj a)) (hattr : ∀ p ∈ a, (c.byName p.1).isSome = true)
-    (hinv : inv c.id a = inv c.id (a.map (fun p => (toWire c p.1, p.2))))
-    (hc : conforms (cfgOf inv) (.ref cls) (.obj (a.map (fun p => (toWire c p.1, p.2)))) = true)
-    (hu : unamb (cfgOf inv) (.ref cls) (.obj (a.map (fun p => (toWire c p.1, p.2)))) = true) :
-    ∃ v, b.run (cfgOf inv) args = .ok v
-      ∧ dump (cfgOf inv) true true v = expected (cfgOf inv) (.ref cls) (.obj (a.map (fun p => (toWire c p.1, p.2)))) :=
-  builder_emits_wire_form (cfgOf_wf inv) b cls c args a hret hfind (c10_names_apart c (find_mem hfind)) heval hattr hinv hc hu
-
-/-- non-vacuity (a literal copy of what the translator emits for `create_structured_tool_result`, so
-that the example does not depend on the helper staying inside the translator's subset):
-`create_structured_tool_result(data={}, schema={"a": 1})` dumps with the wire name `schema` (not
-`schema_`) and without `None` members -/
-private def demoBuilder : Builder :=
-  { module := "m", name := "create_structured_tool_result",
-    params := [("data", none), ("schema", some .null), ("mime_type", some (.str "application/json")), ("is_error", some (.bool false))],
-    body := [.assign "structured_content" (.model "StructuredContent" [("type", .const (.str "structured")),
-      ("data", .param "data"), ("schema_", .param "schema"), ("mimeType", .param "mime_type")])],
-    ret := .model "ToolResult@protocol.types.tools" [("structuredContent", .list [.param "structured_content"]),
-      ("isError", .param "is_error")] }
-
-example :
-    (demoBuilder.run (cfgOf docInv) [("data", .obj []), ("schema", .obj [("a", .int 1)])]).toOption.map (dump (cfgOf docInv) true true)
-    = some (.obj [("structuredContent", .arr [.obj [("type", .str "structured"), ("data", .obj []),
-        ("schema", .obj [("a", .int 1)]), ("mimeType", .str "application/json")]]), ("isError", .bool false)]) := by
-  simp [demoBuilder, Builder.run, Builder.eval, bindParams, execBody, execStmt, evalB, evalBList, evalBKws, evalBDict, evalKey,
-    BExpr.retClass, lookup, setKey, validate, validateList, validateVals, validateMembers, assemble, collapse, fieldValue,
-    seqFields, cfgOf, Cfg.find, classes, Class.byName, Class.byWire, Class.attrOf, Class.hooked, validatePrim, exactAny,
-    dump, dumpFields, dumpList, dumpVals, outKey, TVal.isNone, Except.toOption, Ty.isOpt, hasKey]
-
-/-- Every generated dispatch table is sound: each tag's entry names a discovered class that declares
-the dispatch member as `Literal[tag]`. -/
-theorem c10_parse_tables_fit_schemas : ∀ p ∈ parsers, parseTableOk classes p = true := by decide +kernel
-
-/-- **`parse ∘ wire form` loses nothing.**  For every generated `parse_*` dispatch table, every entry
-`(tag, cls)` and EVERY spec-valid object of `cls`: the parser picks `cls` and the typed value dumps back
-to the specified value, in which every member of the input is preserved. -/
-theorem c10_parse_dispatch_lossless (inv : String → Obj → Bool) :
-    ∀ p ∈ parsers, ∀ e ∈ p.table, ∀ j, conforms (cfgOf inv) (.ref e.2) j = true → unamb (cfgOf inv) (.ref e.2) j = true →
-      ∃ v, p.run (cfgOf inv) j = .ok v ∧ dump (cfgOf inv) true true v = expected (cfgOf inv) (.ref e.2) j
-        ∧ Preserved j (dump (cfgOf inv) true true v) := by
-  intro p hp e he j hc hu
-  have hok : parseEntryOk classes p (e.1, e.2) = true :=
-    List.all_eq_true.mp (c10_parse_tables_fit_schemas p hp) e he
-  obtain ⟨v, hv, hd⟩ := parse_dispatch (cfgOf_wf inv) p e.1 e.2 hok j hc hu
-  exact ⟨v, hv, hd, by rw [hd]; exact (expected_preserves_and_adds_defaults (cfgOf_wf inv) _ j hc).1⟩
 
 end Verif.Props.C10
